@@ -16,7 +16,7 @@ import (
 func init() {
 	register(&Property{
 		ID:      "C09",
-		Runtime: RuntimeCore,
+		Runtime: append(append([]string{}, RuntimeCore...), "./handler"),
 		Run:     runC09,
 		Explanation: "HTTP outcome structure on every path of the seven HTTP transports: (get-query-only) GET's DispatchOperation is edge-dominated by `Operation == ast.Query` of the operation selected by the request's own " +
 			"operation name; (status-vs-dispatch) no path holds both a non-2xx WriteHeader and a DispatchOperation, and no WriteHeader follows a body write; (status-tables) statusFor/statusForGraphQLResponse map " +
